@@ -1,1 +1,217 @@
 // Kani contract harnesses for /repo/parquet/src/file/writer.rs (child module: sees private items via super::)
+use super::*;
+#[path = "/verif/kani/support/spec.rs"]
+mod spec;
+#[allow(unused_imports)]
+use spec::*;
+
+// ---------------------------------------------------------------------------------------------
+// C18: TrackedWrite<W> byte accounting under sink faults.
+// W = NONDETERMINISTIC sink: every `write(buf)` either fails (solver's choice) or accepts a
+// solver-chosen prefix of k <= buf.len() bytes (k = 0 allowed), which it records; `flush` fails or
+// succeeds by the solver's choice. Errors are ErrorKind::Other (BufWriter retries Interrupted).
+// TrackedWrite is built both by TrackedWrite::new (8 KiB BufWriter: small writes are buffered) and,
+// through the private fields, around BufWriter::with_capacity(2, _) so that the same TrackedWrite
+// methods also run on the direct-to-sink path of BufWriter with inputs of <= 4 bytes.
+// ---------------------------------------------------------------------------------------------
+
+struct Sink {
+    got: [u8; 16],
+    accepted: usize,
+    write_errs: usize,
+    flush_errs: usize,
+}
+impl Sink {
+    fn new() -> Self {
+        Sink { got: [0; 16], accepted: 0, write_errs: 0, flush_errs: 0 }
+    }
+}
+impl Write for Sink {
+    fn write(&mut self, buf: &[u8]) -> std::io::Result<usize> {
+        if kani::any() {
+            self.write_errs += 1;
+            return Err(std::io::Error::from(std::io::ErrorKind::Other));
+        }
+        let k: usize = kani::any();
+        kani::assume(k <= buf.len() && self.accepted + k <= 16);
+        let mut i = 0;
+        while i < k {
+            self.got[self.accepted + i] = buf[i];
+            i += 1;
+        }
+        self.accepted += k;
+        Ok(k)
+    }
+    fn flush(&mut self) -> std::io::Result<()> {
+        if kani::any() {
+            self.flush_errs += 1;
+            return Err(std::io::Error::from(std::io::ErrorKind::Other));
+        }
+        Ok(())
+    }
+}
+
+fn any_tracked(b0: usize) -> TrackedWrite<Sink> {
+    if kani::any() {
+        let mut t = TrackedWrite::new(Sink::new());
+        t.bytes_written = b0;
+        t
+    } else {
+        TrackedWrite { inner: BufWriter::with_capacity(2, Sink::new()), bytes_written: b0 }
+    }
+}
+
+// Contract (C18): ONE call on a TrackedWrite whose counter is any b0 (< 2^60) over the nondeterministic
+// sink, data of <= 4 arbitrary bytes:
+//  write(buf)     Ok(k)  => k <= |buf| and bytes_written = b0 + k;  Err => bytes_written = b0 and the sink failed
+//  write_all(buf) Ok     => bytes_written = b0 + |buf|;             Err => bytes_written = b0 (never counts bytes
+//                 the sink did not take) and the sink failed or accepted 0 bytes (WriteZero)
+//  flush()        never changes the counter; Ok => every counted byte of this call sequence reached the sink
+//  in every case: bytes received by the sink <= bytes handed in, and they are a prefix of them.
+// @unit name=tracked_write_one_call props=C18 kind=bounded bound=one_call_data<=4_bytes fns=TrackedWrite::write,TrackedWrite::write_all,TrackedWrite::flush,TrackedWrite::bytes_written,TrackedWrite::new,TrackedWrite::inner timeout=480 mem=3
+#[kani::proof]
+#[kani::unwind(7)]
+fn tracked_write_one_call() {
+    let b0: usize = kani::any();
+    kani::assume(b0 < 1 << 60);
+    let mut tw = any_tracked(b0);
+    let data: [u8; 4] = kani::any();
+    let len: usize = kani::any();
+    kani::assume(len <= 4);
+    let op: u8 = kani::any();
+    let mut counted = 0;
+    match op {
+        0 => {
+            let r = tw.write(&data[..len]);
+            match &r {
+                Ok(k) => {
+                    assert!(*k <= len && tw.bytes_written() == b0 + *k);
+                    counted = *k;
+                }
+                Err(_) => {
+                    assert!(tw.bytes_written() == b0);
+                    assert!(tw.inner().write_errs > 0);
+                }
+            }
+            kani::cover!(matches!(r, Ok(k) if k == 4));
+            kani::cover!(matches!(r, Ok(k) if k < len)); // direct path, short write
+            kani::cover!(r.is_err());
+            std::mem::forget(r);
+        }
+        1 => {
+            let r = tw.write_all(&data[..len]);
+            if r.is_ok() {
+                assert!(tw.bytes_written() == b0 + len);
+                counted = len;
+            } else {
+                assert!(tw.bytes_written() == b0);
+            }
+            kani::cover!(r.is_ok() && len == 4);
+            kani::cover!(r.is_err() && tw.inner().accepted > 0); // partial data reached the sink, not counted
+            kani::cover!(r.is_err() && tw.inner().write_errs == 0); // WriteZero
+            std::mem::forget(r);
+        }
+        _ => {
+            let r = tw.flush();
+            assert!(tw.bytes_written() == b0);
+            kani::cover!(r.is_ok());
+            kani::cover!(r.is_err());
+            std::mem::forget(r);
+        }
+    }
+    // sink side: never more than handed in, and a prefix of it
+    let s = tw.inner();
+    assert!(s.accepted <= len);
+    let i: usize = kani::any();
+    kani::assume(i < s.accepted);
+    assert!(s.got[i] == data[i]);
+    // a successful flush afterwards means the sink holds every counted byte
+    let r2 = tw.flush();
+    assert!(tw.bytes_written() == b0 + counted);
+    if r2.is_ok() {
+        assert!(tw.inner().accepted == counted || op == 1 && counted == 0);
+        assert!(tw.inner().accepted >= counted);
+    }
+    kani::cover!(r2.is_ok() && counted == 3);
+    kani::cover!(r2.is_err() && counted == 3);
+    std::mem::forget(r2);
+    std::mem::forget(tw);
+}
+
+// Contract (C18): two write / write_all calls (each <= 2 arbitrary bytes) followed by flush, from
+// TrackedWrite::new or the capacity-2 variant, with the sink failing or short-writing at any point:
+// as long as no call has returned Err, bytes_written equals the number of bytes the calls reported as
+// accepted, the sink has received a PREFIX of exactly that byte sequence, and if the final flush returns
+// Ok the sink has received all of it (a "successful" writer has handed every counted byte to the sink).
+// After the first Err the counter still never exceeds the bytes handed in.
+// (three calls ran out of memory at 10 GB: BufWriter's flush loop is inlined once per call and error path)
+// @unit name=tracked_write_two_calls props=C18 kind=bounded bound=2_calls_of<=2_bytes fns=TrackedWrite::write,TrackedWrite::write_all,TrackedWrite::flush,TrackedWrite::bytes_written tier=thorough timeout=900 mem=8
+#[kani::proof]
+#[kani::unwind(7)]
+fn tracked_write_two_calls() {
+    let mut tw = any_tracked(0);
+    let mut stream = [0u8; 4]; // bytes reported as accepted, in order
+    let mut total = 0usize;
+    let mut handed = 0usize;
+    let mut failed = false;
+    let mut call = 0;
+    while call < 2 {
+        let data: [u8; 2] = kani::any();
+        let len: usize = kani::any();
+        kani::assume(len <= 2);
+        handed += len;
+        if kani::any() {
+            let r = tw.write(&data[..len]);
+            match &r {
+                Ok(k) => {
+                    let mut i = 0;
+                    while i < *k {
+                        stream[total + i] = data[i];
+                        i += 1;
+                    }
+                    total += *k;
+                }
+                Err(_) => failed = true,
+            }
+            std::mem::forget(r);
+        } else {
+            let r = tw.write_all(&data[..len]);
+            if r.is_ok() {
+                let mut i = 0;
+                while i < len {
+                    stream[total + i] = data[i];
+                    i += 1;
+                }
+                total += len;
+            } else {
+                failed = true;
+            }
+            std::mem::forget(r);
+        }
+        assert!(tw.bytes_written() == total);
+        assert!(tw.bytes_written() <= handed);
+        if !failed {
+            let s = tw.inner();
+            assert!(s.accepted <= total);
+            let i: usize = kani::any();
+            kani::assume(i < s.accepted);
+            assert!(s.got[i] == stream[i]);
+        }
+        call += 1;
+    }
+    let r = tw.flush();
+    assert!(tw.bytes_written() == total);
+    if !failed && r.is_ok() {
+        let s = tw.inner();
+        assert!(s.accepted == total);
+        let i: usize = kani::any();
+        kani::assume(i < total);
+        assert!(s.got[i] == stream[i]);
+    }
+    kani::cover!(!failed && r.is_ok() && total == 4);
+    kani::cover!(!failed && r.is_err() && total == 3);
+    kani::cover!(failed && total == 1);
+    kani::cover!(!failed && r.is_ok() && total == 2 && handed == 4); // short writes on the direct path
+    std::mem::forget(r);
+    std::mem::forget(tw);
+}
